@@ -16,7 +16,7 @@
      o = {g: [value id of Get(key id i), i = 1..u], it: [[kid, vid], ...] IterateKV callbacks in order,
           st: {nlk, np, npf, bytes, ps, occ, alloc}}          (-1 = a key / value outside the universe)
      {ev:"New", t, u, w, mk, ps, pers, src, o}      new tree (resets the observer); u key ids, w value ids
-     {ev:"Set", k, v, o}        {ev:"SetMany", ks:[kid...], v, o}   (a run of Sets, observed once)
+     {ev:"Set", k, v, o}        {ev:"SetMany", runs:[[lo,hi]...], v, o}   (Set of every id in the runs, observed once)
      {ev:"Del", ts, lmax, o}    lmax = key ids that were the max key of a leaf before the call
      {ev:"Rw", vis:[[kid, vid, newvid]...], o}      IterateKV with a rewriting callback
      {ev:"Reset", o}            {ev:"Reopen", o}
@@ -31,12 +31,15 @@ Trace == ndJsonDeserialize("trace.ndjson")
 TM == INSTANCE TreeMap WITH NKeys <- 1, NVals <- 1, MaxOps <- 0, m <- 0, ops <- 0
 INSTANCE TreeOps
 
-VARIABLES l, tid, u, pers, m, st, reopened, dead, pm, bad, drift
-vars == <<l, tid, u, pers, m, st, reopened, dead, pm, bad, drift>>
+VARIABLES l, tid, u, pers, m, st, reopened, dead, pm,
+          nb, nd,            \* records produced by the last step
+          bad, drift, cnt    \* accumulated: at most Cap records per (prop, why), and the exact counts
+vars == <<l, tid, u, pers, m, st, reopened, dead, pm, nb, nd, bad, drift, cnt>>
 
 NoStats == [nlk |-> -1]
 Init == /\ l = 1 /\ tid = 0 /\ u = 0 /\ pers = FALSE /\ m = <<>> /\ st = NoStats
-        /\ reopened = FALSE /\ dead = TRUE /\ pm = [err |-> "off"] /\ bad = {} /\ drift = {}
+        /\ reopened = FALSE /\ dead = TRUE /\ pm = [err |-> "off"] /\ nb = {} /\ nd = {}
+        /\ bad = {} /\ drift = {} /\ cnt = <<>>
 
 Rec(prop, why) == [at |-> l, trace |-> tid, why |-> why, prop |-> prop]
 \* a map-level complaint belongs to C10, and to C16 as well once the tree has been reopened
@@ -44,13 +47,13 @@ MapBad(cond, why) == IF cond THEN {} ELSE {Rec("C10", why)} \cup (IF reopened TH
 Flag(cond, prop, why) == IF cond THEN {} ELSE {Rec(prop, why)}
 
 (* ------------------------------ reading an observation ------------------------------ *)
-GetOK(o, mm)  == \A k \in 1..u : o.g[k] = mm[k]
+GetOK(o, mm)  == Len(o.g) = Len(mm) /\ \A k \in DOMAIN mm : o.g[k] = mm[k]
 ItPairs(o)    == {<<o.it[i][1], o.it[i][2]>> : i \in 1..Len(o.it)}
 \* every live pair exactly once
 IterOK(o, mm) == Len(o.it) = Cardinality(TM!Live(mm)) /\ ItPairs(o) = TM!Pairs(mm)
 \* the mapping the real tree shows (used to resynchronise after a complaint, so that one defect is
 \* reported where it happens and not again on every later event)
-Shown(o)      == [k \in 1..u |-> IF o.g[k] < 0 THEN 0 ELSE o.g[k]]
+Shown(o)      == [k \in 1..Len(o.g) |-> IF o.g[k] < 0 THEN 0 ELSE o.g[k]]
 Judge(op, o, mm) == MapBad(GetOK(o, mm), op \o ": Get does not return the value last set (or 0 for an absent key)")
                     \cup MapBad(IterOK(o, mm), op \o ": IterateKV does not visit every live pair exactly once")
 
@@ -86,31 +89,31 @@ Step(e) ==
          IN
          /\ tid' = e.t /\ u' = e.u /\ pers' = e.pers /\ reopened' = FALSE /\ dead' = FALSE
          /\ m' = mm /\ st' = e.o.st
-         /\ bad' = bad \cup { [r EXCEPT !.trace = e.t] : r \in
+         /\ nb' = { [r EXCEPT !.trace = e.t] : r \in
                                 MapBad(GetOK(e.o, mm), "New: Get on a fresh tree returns a value")
                                 \cup MapBad(Len(e.o.it) = 0, "New: IterateKV on a fresh tree visits something") }
-         /\ drift' = drift \cup { [r EXCEPT !.trace = e.t] : r \in Drift(e, t0, "New") }
+         /\ nd' = { [r EXCEPT !.trace = e.t] : r \in Drift(e, t0, "New") }
          /\ pm' = PmNext(e, t0)
-         /\ UNCHANGED <<>>
     [] e.ev = "Set" /\ ~dead ->
          LET mm == TM!MSet(m, e.k, e.v)
              t == IF PmOn THEN TreeSet(pm, e.k, e.v) ELSE pm IN
-         /\ bad' = bad \cup Judge("Set", e.o, mm)
+         /\ nb' = Judge("Set", e.o, mm)
                        \* C16: recycled pages are reused - the frontier only moves when no free page is left
                        \cup (IF reopened /\ st.nlk >= 0
                                THEN Flag(e.o.st.np > st.np => e.o.st.npf = 0, "C16",
                                          "Set after reopen: the file grew although recycled pages were available")
                                ELSE {})
          /\ m' = Shown(e.o) /\ st' = e.o.st
-         /\ drift' = drift \cup Drift(e, t, "Set") /\ pm' = PmNext(e, t)
+         /\ nd' = Drift(e, t, "Set") /\ pm' = PmNext(e, t)
          /\ UNCHANGED <<tid, u, pers, reopened, dead>>
     [] e.ev = "SetMany" /\ ~dead ->
-         LET inks == {e.ks[i] : i \in 1..Len(e.ks)}
-             mm == [k \in 1..u |-> IF k \in inks THEN e.v ELSE m[k]] IN
-         /\ bad' = bad \cup Judge("Set", e.o, mm)
+         LET In(k) == \E i \in 1..Len(e.runs) : e.runs[i][1] <= k /\ k <= e.runs[i][2]
+             mm == [k \in 1..u |-> IF In(k) THEN e.v ELSE m[k]] IN
+         /\ nb' = Judge("Set", e.o, mm)
          /\ m' = Shown(e.o) /\ st' = e.o.st
          /\ pm' = [err |-> "off"]
-         /\ UNCHANGED <<tid, u, pers, reopened, dead, drift>>
+         /\ nd' = {}
+         /\ UNCHANGED <<tid, u, pers, reopened, dead>>
     [] e.ev = "Del" /\ ~dead ->
          LET mm == TM!MDeleteBelow(m, e.ts)
              o == e.o
@@ -122,14 +125,14 @@ Step(e) ==
              onlyStale == D # {} /\ (\A k \in D : Stale(k)) /\ IterOK(o, Shown(o))
              t == IF PmOn THEN TreeDeleteBelow(pm, e.ts) ELSE pm
          IN
-         /\ bad' = bad \cup
+         /\ nb' =
                (IF D = {} /\ IterOK(o, mm) THEN {}
                 ELSE IF onlyStale
                   THEN MapBad(FALSE, "DeleteBelow: a leaf's max key whose value is below the threshold is still returned with its stale value")
                   ELSE MapBad(D = {}, "DeleteBelow: did not remove exactly the keys whose value is below the threshold")
                        \cup MapBad(IterOK(o, Shown(o)), "DeleteBelow: IterateKV does not visit every live pair exactly once"))
          /\ m' = Shown(o) /\ st' = o.st
-         /\ drift' = drift \cup Drift(e, t, "DeleteBelow") /\ pm' = PmNext(e, t)
+         /\ nd' = Drift(e, t, "DeleteBelow") /\ pm' = PmNext(e, t)
          /\ UNCHANGED <<tid, u, pers, reopened, dead>>
     [] e.ev = "Rw" /\ ~dead ->
          LET vis == e.vis
@@ -139,45 +142,56 @@ Step(e) ==
              F(k, v) == IF \E j \in 1..Len(vis) : vis[j][1] = k /\ vis[j][2] = v THEN New(k) ELSE 0
              t == IF PmOn THEN TreeIterateKV(pm, F) ELSE pm
          IN
-         /\ bad' = bad \cup MapBad(Len(vis) = Cardinality(TM!Live(m)) /\ vp = TM!Pairs(m),
+         /\ nb' = MapBad(Len(vis) = Cardinality(TM!Live(m)) /\ vp = TM!Pairs(m),
                                    "IterateKV: the callback did not see every live pair exactly once")
                        \cup Judge("IterateKV rewrite", e.o, mm)
          /\ m' = Shown(e.o) /\ st' = e.o.st
-         /\ drift' = drift \cup Drift(e, t, "IterateKV") /\ pm' = PmNext(e, t)
+         /\ nd' = Drift(e, t, "IterateKV") /\ pm' = PmNext(e, t)
          /\ UNCHANGED <<tid, u, pers, reopened, dead>>
     [] e.ev = "Reset" /\ ~dead ->
          LET mm == TM!MEmpty(1..u)
              t == IF PmOn THEN TreeReset(pm, e.minsize) ELSE pm IN
-         /\ bad' = bad \cup Judge("Reset", e.o, mm)
+         /\ nb' = Judge("Reset", e.o, mm)
          /\ m' = Shown(e.o) /\ st' = e.o.st
-         /\ drift' = drift \cup Drift(e, t, "Reset") /\ pm' = PmNext(e, t)
+         /\ nd' = Drift(e, t, "Reset") /\ pm' = PmNext(e, t)
          /\ UNCHANGED <<tid, u, pers, reopened, dead>>
     [] e.ev = "Reopen" /\ ~dead ->
          LET t == IF PmOn THEN TreeReopen(pm) ELSE pm IN
-         /\ bad' = bad \cup Flag(GetOK(e.o, m) /\ IterOK(e.o, m), "C16",
+         /\ nb' = Flag(GetOK(e.o, m) /\ IterOK(e.o, m), "C16",
                                  "Reopen: the reopened tree does not hold the same key-value mapping")
                        \cup Flag(StatsSame(st, e.o.st), "C16",
                                  "Reopen: key-count / page statistics differ from those before Close")
          /\ reopened' = TRUE
          /\ m' = Shown(e.o) /\ st' = e.o.st
-         /\ drift' = drift \cup Drift(e, t, "Reopen") /\ pm' = PmNext(e, t)
+         /\ nd' = Drift(e, t, "Reopen") /\ pm' = PmNext(e, t)
          /\ UNCHANGED <<tid, u, pers, dead>>
     [] e.ev = "Panic" /\ ~dead ->
-         /\ bad' = bad \cup
+         /\ nb' =
               (IF e.in = "Reopen"
                  THEN (IF e.sbo /\ e.reinit
                          THEN {Rec("C16", "Reopen: panic, slice bounds out of range inside reinit")}
                          ELSE {Rec("C16", "Reopen: panic")})
                  ELSE MapBad(FALSE, e.in \o ": panic"))
          /\ dead' = TRUE /\ pm' = [err |-> "off"]
-         /\ UNCHANGED <<tid, u, pers, m, st, reopened, drift>>
+         /\ nd' = {}
+         /\ UNCHANGED <<tid, u, pers, m, st, reopened>>
+
+\* accumulation: the state stays small however many events are rejected (a known finding can be hit
+\* thousands of times): at most Cap records per (prop, why) are kept, the counts are exact
+Cap == 25
+AddCapped(S, N) == S \cup {r \in N : Cardinality({b \in S : b.why = r.why /\ b.prop = r.prop}) < Cap}
+CountUp(c, N) == LET ks == {<<r.prop, r.why>> : r \in N} IN
+                 [x \in DOMAIN c \cup ks |-> (IF x \in DOMAIN c THEN c[x] ELSE 0) + Cardinality({r \in N : <<r.prop, r.why>> = x})]
+Acc == /\ bad' = AddCapped(bad, nb) /\ drift' = AddCapped(drift, nd) /\ cnt' = CountUp(cnt, nb \cup nd)
 
 Next == /\ l <= Len(Trace)
         /\ l' = l + 1
         /\ Step(Trace[l])
+        /\ Acc
 
 Spec == Init /\ [][Next]_vars
 
 \* printed once, from the state that has consumed the whole trace
-Report == (l = Len(Trace) + 1) => PrintT(<<"OBS-RESULT", bad, drift>>)
+Report == (l = Len(Trace) + 1) =>
+            PrintT(<<"OBS-RESULT", AddCapped(bad, nb), AddCapped(drift, nd), CountUp(cnt, nb \cup nd)>>)
 =============================================================================
